@@ -198,6 +198,8 @@ func registry() map[string]PropSpec {
 				What: "Plugins.UnmarshalOrdered on the one-mapping form appends in mapping order; the pipeline env block decodes and marshals (JSON data model) in document order"},
 			{Pkg: ".", Name: "c08_nested_unknown", Quick: map[string]int{}, Unwind: [2]int{64, 64},
 				What: "mappings nested inside unknown steps and unknown fields keep document order through parse and JSON marshalling, at every depth (typed-field configs such as agents are emitted by encoding/json in sorted order and are not order-significant)"},
+			{Pkg: ".", Name: "c08_yaml_order", Quick: map[string]int{}, Unwind: [2]int{64, 64},
+				What: "document order through the YAML output on the node data model: env block and mappings nested (two levels) in an unknown step, symbolic keys of 0-2 bytes"},
 		},
 		Outside: []string{
 			"token order in the bytes produced by encoding/json and yaml.v3 (library emitters); keys that need quoting (the libraries' quoting)",
